@@ -3,6 +3,7 @@
 record which obligations / harness witnesses report it, undo the change.  Writes /verif/seeded/RESULTS.json.
 (never commits anything in /repo; refuses to start on a dirty tree)"""
 import json, os, subprocess, sys, time
+os.environ.setdefault('VERIF_SEED', '1')      # the seed the registered commands are run with
 ROOT = '/verif/seeded'
 def sh(*a, **k):
     return subprocess.run(a, capture_output=True, text=True, **k)
